@@ -172,6 +172,36 @@ theorem lex_token_positions (s : Str) : ∀ t ∈ (lex s).toks,
     InText s (t.lineno, t.colno) ∧ InText s (t.lineno, t.colno + t.spanEnd - t.spanStart) :=
   (lex_pos s).1
 
+/-- `lex_token_linecol` — **line bookkeeping is exact, for every input and every token kind**: the line number
+of every token the lexer yields is `1 +` the number of `'\n'` characters before the token's first character
+(`bytespan[0]`), its column is the distance from that character back to the previous `'\n'` (to the start of
+the text on line 1), and the offset lies inside the text (`Addr`). This is the statement about the text alone;
+it covers the tokens that follow multi-line tokens — triple-quoted (f-)strings, single-quoted strings holding
+a raw newline, `\`-continuations with blanks and a trailing comment — because the model's `lexStep` mirrors
+each of the four `lineno`/`line_start` updates of `Lexer.lex` and `LexPos.lean` proves the state invariant
+`lineno = newlines consumed + 1`, `line_start = offset after the last newline consumed` across every one of
+them. `'\r'` is an ordinary character: outside strings/comments the lexer rejects it, inside it is one
+column. -/
+theorem lex_token_linecol (s : Str) : ∀ t ∈ (lex s).toks,
+    t.spanStart ≤ s.length ∧ t.lineno = countNl (s.take t.spanStart) + 1 ∧
+      t.colno = lastLineLen (s.take t.spanStart) :=
+  MesonModel.Lang.lex_token_linecol s
+
+/-- an address (`Addr s l c off`: `off ≤ len`, `l = 1 + newlines before off`, `c = distance to the previous
+newline`) denotes its offset in the rewriter's line table and lies inside the text; an offset has one address -/
+theorem address_offset (s : Str) (l c off : Nat) (h : Addr s l c off) : lineOff s l + c = off ∧ InText s (l, c) :=
+  ⟨h.lineOff, h.inText⟩
+
+theorem address_unique (s : Str) (l c l' c' off : Nat) (h : Addr s l c off) (h' : Addr s l' c' off) :
+    l = l' ∧ c = c' := h.unique h'
+
+/-- the tokens after a continuation line with a trailing comment, after a triple-quoted string spanning three
+lines, and after a CRLF inside a comment: (line, column, offset) -/
+example : ((lex "a = \\  # c\n [ '''x\n\ny''', # z\r\n 2]\n".toList).toks.map
+    (fun t => (t.lineno, t.colno, t.spanStart))).drop 5 =
+    [(2, 0, 11), (2, 1, 12), (2, 2, 13), (2, 3, 14), (4, 4, 24), (4, 5, 25), (4, 6, 26), (4, 10, 30), (5, 0, 31),
+     (5, 1, 32), (5, 2, 33), (5, 3, 34)] := by decide +kernel
+
 example : lineOff "ab\ncd\n".toList 2 = 3 := by decide
 /-- the `eof` token after a multi-line string sits past the end of line 1, but inside the text -/
 example : errOf "f('''a\nb'''" = some (.block 1 11) := by decide +kernel
@@ -179,11 +209,14 @@ example : errOf "f('''a\nb'''" = some (.block 1 11) := by decide +kernel
 /-! ### spans: the recorded extent of every call and array literal delimits exactly the construct -/
 
 /-- the full statement of span exactness: for every accepted input and every node `n` of the tree (`sub`: the
-tree's nodes, all descendants included), if `n` is a `FunctionNode`, a `MethodNode` or an `ArrayNode` then
-the text `s[lineOff s lineno + colno : lineOff s end_lineno + end_colno]` (`extentSlice`; `lineOff` counts
+tree's nodes, all descendants included), the position fields of `n` are exact (`SpanExact`): if `n` is of one
+of the five kinds whose constructor records an end position — `FunctionNode`, `MethodNode`, `ArrayNode`,
+`DictNode`, `ParenthesizedNode` — then both recorded line/column pairs are addresses in the sense of
+`lex_token_linecol` (line = 1 + newlines before, column = distance to the previous newline) and the text
+`s[lineOff s lineno + colno : lineOff s end_lineno + end_colno]` (`extentSlice`; `lineOff` counts
 lines by `'\n'` only, as the rewriter's line table does) is the source of the construct: what `RawPrinter`
-prints for its parts, from the first token to the closing `)` / `]`, without the trivia after it
-(`SpanExact`). A `MethodNode` is positioned at its *name* (`mparser.py:534`), so its extent is
+prints for its parts, from the first token to the closing `)` / `]` / `}`, without the trivia after it;
+every other node kind records no end position (`end_lineno/end_colno` = start). A `MethodNode` is positioned at its *name* (`mparser.py:534`), so its extent is
 `name(args)`, not `obj.name(args)`. False of the code as it is, for the reason `raw_roundtrip_full` is false
 (the print reorders a positional argument written after a keyword argument), see
 `span_exact_counterexample`. -/
@@ -193,13 +226,15 @@ def span_exact_full : Prop :=
 
 /-- `span_exact_partial`: for **every** input the parser accepts, unless a positional argument was appended
 after a keyword argument (ghost counter `lossy`, the same hypothesis as `raw_roundtrip_partial`), the
-line/column extent recorded on every function call, method call and array literal, converted to offsets with
-the line table, delimits exactly the source text of that construct — multi-line strings, continuation lines
-and comments inside the brackets included. Proved production by production (`SpanProd.lean`): a state
+line/column extent recorded on every function call, method call, array literal, dict literal and
+parenthesised expression, converted to offsets with the line table, delimits exactly the source text of that
+construct — multi-line strings, continuation lines and comments inside the brackets included — and no other
+node kind records an end position. Proved production by production (`SpanProd.lean`): a state
 invariant ties the unconsumed token stream to the suffix of the input it prints and to the line/column of its
-first token (from the lexer theorems `lex_token_offsets`, `lex_partition`, `lex_tokens_print` and "a `)` / `]`
-token is one character long"); where `e8`, `method_call` and `e9` build the node, the ghost-output-stream
-facts of `raw_roundtrip_partial` give the text between the first and the last token. -/
+first token (from the lexer theorems `lex_token_linecol`, `lex_partition`, `lex_tokens_print` and "a `)` / `]`
+/ `}` token is one character long and not a newline"); where `e8`, `method_call` and `e9` (three sites) build
+the node, the ghost-output-stream facts of `raw_roundtrip_partial` give the text between the first and the
+last token. -/
 theorem span_exact_partial (s : Str) (names : List (Str × Nat)) (r : ParseOk)
     (h : parseWith names s = .ok r) (hl : r.lossy = 0) : ∀ n ∈ sub r.tree, SpanExact s n :=
   parse_spans h hl
@@ -210,7 +245,7 @@ theorem span_exact_function (s : Str) (names : List (Str × Nat)) (r : ParseOk)
     (hn : Node.function b name lpar a rpar ∈ sub r.tree) :
     slice s (lineOff s b.lineno + b.colno) (lineOff s b.endLineno + b.endColno) =
       emit name ++ emit lpar ++ emit a ++ symValue rpar :=
-  span_exact_partial s names r h hl _ hn
+  (span_exact_partial s names r h hl _ hn).2.2
 
 /-- … for an `ArrayNode`: `[...]` from the `[` to the `]` -/
 theorem span_exact_array (s : Str) (names : List (Str × Nat)) (r : ParseOk)
@@ -218,7 +253,23 @@ theorem span_exact_array (s : Str) (names : List (Str × Nat)) (r : ParseOk)
     (hn : Node.array b l a rb ∈ sub r.tree) :
     slice s (lineOff s b.lineno + b.colno) (lineOff s b.endLineno + b.endColno) =
       emit l ++ emit a ++ symValue rb :=
-  span_exact_partial s names r h hl _ hn
+  (span_exact_partial s names r h hl _ hn).2.2
+
+/-- … for a `DictNode`: `{...}` from the `{` to the `}` -/
+theorem span_exact_dict (s : Str) (names : List (Str × Nat)) (r : ParseOk)
+    (h : parseWith names s = .ok r) (hl : r.lossy = 0) (b : Base) (l a rc : Node)
+    (hn : Node.dict b l a rc ∈ sub r.tree) :
+    slice s (lineOff s b.lineno + b.colno) (lineOff s b.endLineno + b.endColno) =
+      emit l ++ emit a ++ symValue rc :=
+  (span_exact_partial s names r h hl _ hn).2.2
+
+/-- … for a `ParenthesizedNode`: `(...)` from the `(` to the `)` -/
+theorem span_exact_paren (s : Str) (names : List (Str × Nat)) (r : ParseOk)
+    (h : parseWith names s = .ok r) (hl : r.lossy = 0) (b : Base) (l inner rp : Node)
+    (hn : Node.paren b l inner rp ∈ sub r.tree) :
+    slice s (lineOff s b.lineno + b.colno) (lineOff s b.endLineno + b.endColno) =
+      emit l ++ emit inner ++ symValue rp :=
+  (span_exact_partial s names r h hl _ hn).2.2
 
 /-- … for a `MethodNode`: `name(...)` from the method name to the `)` (the object expression and the dot lie
 before the recorded start) -/
@@ -227,7 +278,34 @@ theorem span_exact_method (s : Str) (names : List (Str × Nat)) (r : ParseOk)
     (hn : Node.method b obj dot name lpar a rpar ∈ sub r.tree) :
     slice s (lineOff s b.lineno + b.colno) (lineOff s b.endLineno + b.endColno) =
       emit name ++ emit lpar ++ emit a ++ symValue rpar :=
-  span_exact_partial s names r h hl _ hn
+  (span_exact_partial s names r h hl _ hn).2.2
+
+/-- `node_end_positions` — the END positions recorded by the parser nodes obey the same law as the token
+positions (`lex_token_linecol`): on every node that records an end (`Node.recordsEnd`: function, method,
+array, dict, parenthesised) `end_lineno` is `1 +` the number of newlines before the end offset `e` and
+`end_colno` the distance from `e` back to the previous newline — `e` being the offset just after the closing
+`)` / `]` / `}`, i.e. the one the line table computes from `(end_lineno, end_colno)` — and likewise
+`lineno/colno` for the start offset `a`; both offsets lie inside the text. -/
+theorem node_end_positions (s : Str) (names : List (Str × Nat)) (r : ParseOk)
+    (h : parseWith names s = .ok r) (hl : r.lossy = 0) (n : Node) (hn : n ∈ sub r.tree)
+    (hr : n.recordsEnd = true) :
+    Addr s n.base.lineno n.base.colno (lineOff s n.base.lineno + n.base.colno) ∧
+    Addr s n.base.endLineno n.base.endColno (lineOff s n.base.endLineno + n.base.endColno) := by
+  have hx := span_exact_partial s names r h hl n hn
+  cases n <;> simp [Node.recordsEnd] at hr <;> exact ⟨hx.1, hx.2.1⟩
+
+/-- `no_end_recorded` — precisely which node kinds record no end position: every node of an accepted tree that
+is not a function call, method call, array literal, dict literal or parenthesised expression — string nodes
+(single- and triple-quoted, f-strings), numbers, ids, booleans, symbols, `continue`/`break`, index expressions
+`a[i]`, unary/binary/ternary operators, assignments, argument lists, code blocks, `if`/`elif`/`else`/`foreach`
+clauses and the empty node — has `end_lineno = lineno` and `end_colno = colno` (the `BaseNode` defaults); the
+only extent such a node carries is the `bytespan` of an elementary node, which is compared with the
+implementation on every run. -/
+theorem no_end_recorded (s : Str) (names : List (Str × Nat)) (r : ParseOk)
+    (h : parseWith names s = .ok r) (hl : r.lossy = 0) (n : Node) (hn : n ∈ sub r.tree)
+    (hr : n.recordsEnd = false) : n.base.endLineno = n.base.lineno ∧ n.base.endColno = n.base.colno := by
+  have hx := span_exact_partial s names r h hl n hn
+  cases n <;> simp [Node.recordsEnd] at hr <;> first | exact hx | exact hx.1
 
 /-- `(text cut by the extent, construct)` for every call / array node of the tree, in tree order -/
 def spansOf (s : String) : Option (List (String × String)) :=
@@ -247,6 +325,13 @@ array spanning lines with a multi-line string and a comment inside -/
 example : (match parse "x = f(a, [1, 2] , k : g( 3 ) ) # c\ny = a.b(1).c( [ '''m\nl''' , # d\n 2] )\n".toList with
     | .ok r => r.lossy == 0 && ((sub r.tree).filter Node.isCallOrArray).length == 6 &&
         (sub r.tree).all (spanExactB "x = f(a, [1, 2] , k : g( 3 ) ) # c\ny = a.b(1).c( [ '''m\nl''' , # d\n 2] )\n".toList)
+    | .error _ => false) = true := by decide +kernel
+
+/-- a dict literal over two lines with a comment, inside a parenthesised expression over three lines: all
+position fields exact -/
+example : (match parse "d = ( {'a' : 1, # c\n 'b' : [2] }\n )\n".toList with
+    | .ok r => r.lossy == 0 && ((sub r.tree).filter Node.recordsEnd).length == 3 &&
+        (sub r.tree).all (spanExactB "d = ( {'a' : 1, # c\n 'b' : [2] }\n )\n".toList)
     | .error _ => false) = true := by decide +kernel
 
 example : spansOf "y = a.b(1).c( [ 2,\n 3] ) \n" =
@@ -270,6 +355,68 @@ theorem span_exact_counterexample : ¬ span_exact_full := by
       List.all_eq_true.mpr (fun n hn => (spanExactB_iff n).mpr (hall n hn))
     rw [this] at hw; cases hw
   · cases hw
+
+/-! ### the side condition of the round trip, made precise
+
+`raw_roundtrip_partial` speaks about the ghost counter `lossy`. What the implementation itself records is the
+flag `ArgumentNode.order_error` (`incorrect_order()`, which the interpreter turns into "All keyword arguments
+must be after positional arguments"). `orderFlags t` is the decidable condition on the *tree*: the number of
+`ArgumentNode`s of `t` whose `order_error` is set. -/
+
+/-- `ArgumentNode.order_error` -/
+def orderFlag : Node → Bool
+  | .args _ _ _ _ _ _ oe => oe
+  | _ => false
+
+/-- number of argument lists of the tree in which a positional argument was written after a keyword argument -/
+def orderFlags (t : Node) : Nat := ((sub t).filter orderFlag).length
+
+/-- `order_flag_sound`: the ghost counter never misses a flag — on every accepted input on which the counter is
+`0`, no `ArgumentNode` of the tree has `order_error` set. (The counter is incremented by `noteOrder` exactly
+where `ArgumentNode.append` computes `order_error = True`, `mparser.py:370-374`; proved along the
+production-by-production span invariant.) Together with `raw_roundtrip_partial` and `span_exact_partial`: every
+accepted input that is not printed back byte for byte, or has a call/array/dict/parenthesis extent that is not
+exact, has `lossy > 0`. -/
+theorem order_flag_sound (s : Str) (names : List (Str × Nat)) (r : ParseOk)
+    (h : parseWith names s = .ok r) (hl : r.lossy = 0) : orderFlags r.tree = 0 := by
+  have hx := span_exact_partial s names r h hl
+  unfold orderFlags
+  rw [List.length_eq_zero_iff, List.filter_eq_nil_iff]
+  intro n hn
+  have := hx n hn
+  cases n <;> simp [orderFlag]
+  case args b pos commas colons keys vals oe => exact this.2
+
+/-- the converse (`order_flag_complete`): a set counter shows as a set flag in the tree — every `ArgumentNode`
+under construction ends up in the returned tree. Not proved here (it needs a second pass over all productions,
+"the node under construction is a sub-node of the result"); it is checked on every input of every run: the
+driver's answer carries both the counter and the flags, the harness compares them with each other and with
+`order_error` of the real `ArgumentNode` objects (`model:lossy-vs-flag`, `impl:order-error-vs-print`). -/
+def order_flag_complete : Prop :=
+  ∀ (s : Str) (names : List (Str × Nat)) (r : ParseOk), parseWith names s = .ok r → orderFlags r.tree = 0 → r.lossy = 0
+
+/-- `raw_roundtrip` at full strength under the decidable side condition on the tree: no `order_error` flag -/
+def raw_roundtrip_unless_order_error : Prop :=
+  ∀ (s : Str) (names : List (Str × Nat)) (r : ParseOk), parseWith names s = .ok r → orderFlags r.tree = 0 →
+    emit r.tree = s ∧ ∀ n ∈ sub r.tree, SpanExact s n
+
+/-- … which is `raw_roundtrip_partial` + `span_exact_partial` once the flag is known to be complete -/
+theorem raw_roundtrip_unless_order_error_of_complete (hc : order_flag_complete) : raw_roundtrip_unless_order_error :=
+  fun s names r h hf => ⟨raw_roundtrip_partial s names r h (hc s names r h hf),
+    span_exact_partial s names r h (hc s names r h hf)⟩
+
+/-- what the printer does when the flag is set, on the smallest witness: `visit_ArgumentNode` prints all
+positional arguments first (each followed by the next comma of the list), then the keyword arguments — the text
+is a permutation of the source tokens (`a: 1, b` → `b, a: 1`), the counter is 1 and the flag is set. With the
+keyword argument last (`f(b, a: 1)`) counter and flag are 0 and the text is reproduced. -/
+theorem order_error_witness :
+    (match parse "f(a: 1, b)\n".toList with
+     | .ok r => (r.lossy, orderFlags r.tree, String.ofList (emit r.tree))
+     | .error _ => (0, 0, "")) = (1, 1, "f(b, a: 1)\n") ∧
+    (match parse "f(b, a: 1)\n".toList with
+     | .ok r => (r.lossy, orderFlags r.tree, String.ofList (emit r.tree))
+     | .error _ => (9, 9, "")) = (0, 0, "f(b, a: 1)\n") := by
+  constructor <;> decide +kernel
 
 /-- `fuel_suffices`: the model's recursion bound is never the reason for a failure -/
 theorem fuel_suffices (s : Str) (names : List (Str × Nat)) : parseWith names s ≠ .error .fuel := by
